@@ -56,6 +56,10 @@ CLAIMED = {
          "Every tensor transform (6 producers) must hand name, colour, mutability, leaf default, per-rank formats and an authoritative-derived shape to its result on every path to the return; every lazy-result builder (10 fromIterator producers) must carry the rank id / active range / default the operation defines; Fiber attribute queries ask the owner first; Rank.getShape(authoritative=True) yields None for estimated shapes. Coordinates inside shape / active range (values) are NOT decided.",
          "Trusts: the requirement table written from the property text (sa/rules/c14.py).",
          "DESIGN.md section 3, C14"),
+ "C15": ("intraprocedural taint analysis with metrics-only-parameter summaries (non-interference), dominating-guard check of asserting Metrics calls, counter-placement table, mutated-vs-reset attribute set comparison, tick pairing in the generators, effect summaries for confinement",
+         "Termination-insensitive non-interference of metrics code with kernel results: values derived from Metrics.* never reach yields/returns/tree writes/kernel control flow in any function of core/; every asserting Metrics call is dominated by a collecting guard; payload operators count exactly the table; beginCollect resets every attribute any Metrics method mutates; metrics.py is confined to Metrics.* and files; one incIter per yield in the ticking generators. Sufficient for 'results with collection on = off' for all kernels; equality of the reported numbers with an executed kernel is NOT decided.",
+         "Trusts: Fiber._saved_* statistics do not influence results; asserts of the metrics API may abort a collecting run.",
+         "DESIGN.md section 3, C15"),
 }
 
 NOT_APPLICABLE = {
